@@ -105,8 +105,9 @@ def copyOp (st : St) (d s ids rm ex ph : String) : St × String :=
         else match parsePhases ph with
           | some [c] => finish st (copyMulti w d s (some c) ids (rm == "1") (ex == "1"))
           | _ => bad st
-      else if ph == "*" then finish st (copySingle w d s ids (rm == "1") (ex == "1"))
-      else bad st
+      else
+        -- a single-phase destination has no phase argument (`Stream.copy_flow`): the harness does not pass it either
+        finish st (copySingle w d s ids (rm == "1") (ex == "1"))
     | none => bad st
   | _, _, _ => bad st
 
@@ -268,6 +269,8 @@ def step (st : St) (line : String) : St × String :=
     match i.toNat?, parseRat? k with
     | some i, some k => finish st (scaleOp st i k false)
     | _, _ => bad st
+  -- the harness stopped judging this case (an enthalpy solve failed in the real code): nothing to model
+  | ["skip"] => (st, "skip=numerics")
   | ["empty", i] =>
     match i.toNat? with
     | some i => finish st (emptyS w i)
